@@ -105,6 +105,8 @@ func pickKs(n int, evs []simfs.Event, sample []int, all bool) []int {
 		case simfs.KCommitState, simfs.KCreate, simfs.KUnlink:
 			set[i] = true   // just before it
 			set[i+1] = true // just after it
+		case simfs.KWriteAt:
+			set[i+1] = true // written but not yet synced: the torn-write window
 		}
 	}
 	for _, s := range sample {
